@@ -284,6 +284,8 @@ def _get_comment_ending_at_line(code_lines: list[str], line: int) -> str:
             break  # previous line is an assignment
         if '"""' in line_str or "'''" in line_str:
             break  # previous line has a docstring
+        if not (_is_empty(line_str) or _is_comment(line_str)):
+            break  # previous line is code (e.g. the `class` line, possibly with its own comment)
         start_line -= 1
     start_line += 1
 
